@@ -277,7 +277,66 @@ def d3_traversal(chk: Check) -> None:
                    "iteration, recursive")
 
 
+def d3b_every_member(chk: Check) -> None:
+    """Within each container branch of the three walkers, every path
+    through the handling of one member either replaces that member or
+    recurses into it; the recursion may be skipped only for a member that
+    is neither a mapping nor a sequence."""
+    from sa.flow import Flow
+    prog = chk.prog
+    chk.rule("C10-D3b", "every member of a mapping / sequence is recursed "
+             "into (or replaced) on every path; only non-containers are "
+             "exempt", floor=6)
+    for name in ("Anchors.scan_for_anchors", "Anchors.rename_anchor",
+                 "Anchors.replace_anchor"):
+        fi = prog.func(name)
+        dom = fi.params()[0]
+        me = "Anchors." + fi.node.name
+        for loop in [n for n in walk_local(fi.node) if isinstance(n, ast.For)]:
+            recs = [c for c in walk_local(loop) if isinstance(c, ast.Call)
+                    and src(c.func) == me and c.args]
+            if not recs:
+                continue
+            member = src(loop.target.elts[-1]) \
+                if isinstance(loop.target, ast.Tuple) else src(loop.target)
+
+            def transfer(stmt: ast.stmt, st, flow, member=member):
+                for c in ast.walk(stmt):
+                    if isinstance(c, ast.Call) and src(c.func) == me and \
+                            c.args and src(c.args[0]) == member:
+                        return [True]
+                if isinstance(stmt, ast.Assign) and \
+                        isinstance(stmt.targets[0], ast.Subscript) and \
+                        src(stmt.targets[0].value) == dom:
+                    return [True]     # the member itself is replaced
+                return [st]
+
+            def branch(test: ast.AST, st, flow, member=member):
+                t = src(test)
+                if isinstance(test, ast.Call) and \
+                        src(test.func) == "isinstance" and \
+                        src(test.args[0]) == member and \
+                        "CommentedMap" in t and "CommentedSeq" in t:
+                    return [st], [True]   # a scalar has nothing below it
+                return [st], [st]
+            out = Flow(transfer, branch).run(loop.body, [False])
+            ends = list(out.fall) + list(out.continues)
+            text = "{}: for {} in {}".format(fi.node.name, src(loop.target),
+                                             src(loop.iter)[:30])
+            if ends and all(ends) and not out.breaks and not out.returns:
+                chk.ok("C10-D3b", fi, loop, text,
+                       "`{}` replaced or recursed into on every path"
+                       .format(member))
+            else:
+                chk.fail("C10-D3b", fi, loop, text,
+                         "some path through the iteration neither replaces "
+                         "`{}` nor recurses into it (or restricts the "
+                         "recursion to one container kind): uses of the "
+                         "anchor below it are missed".format(member))
+
+
 def run(chk: Check) -> None:
     d1_policy(chk)
     d2_unique(chk)
     d3_traversal(chk)
+    d3b_every_member(chk)
